@@ -147,7 +147,7 @@ def _run(ctx):
     init = ctx.fn('RangeStatement::<P>::init', 'R-C05-2')
     if init is not None:
         irow = guard_table(ctx, init)
-        inv = any(a == ('cmp', 'Eq', 'len(p2)', 'len(p3)') for r in irow for a in r['atoms'] if r['eff'] == 'dom')
+        inv = any(a == ('cmp', 'Eq', 'len(p2)', 'len(p3)') for r in irow for a in r['atoms'] if r['eff'] == 'dom' and unconditional(r))
         rep.check(inv, 'R-C05-2', 'R-C05-2/promises-commitments', 'promises are paired with commitments under the constructor invariant |promises| == |commitments|',
                   'RangeStatement::init does not enforce |promises| == |commitments|', ctx.where(init))
         # ---- R-C05-4 dual views
